@@ -1,6 +1,7 @@
 package main
 
 import (
+	"go/token"
 	"go/ast"
 	"fmt"
 	"sort"
@@ -120,6 +121,51 @@ func propC16(w *World, r *Report) {
 		r.Check(c[0] == c[1], "R4", fmt.Sprintf("service requester #%d accesses package-level state only while holding the package mutex", i+1), "-", fmt.Sprintf("%s: %d accesses, %d under {%s}", name, c[0], c[1], reqLocks[name]))
 	}
 	r.Check(len(rn) >= 2, "G4", "service requesters found", "-", fmt.Sprint(rn))
+	// ... and never wait while they hold it: the frame loop takes the same mutex for every connection (and the other
+	// requesters for every call), so a requester that blocks on a channel, a wait group or a sleep stalls the pipeline.
+	// Non-blocking selects (with a default case) are fine.
+	nReqFns := 0
+	for _, root := range a.Roots {
+		if !strings.HasPrefix(root.Name, "dbus:") {
+			continue
+		}
+		var fns []*ssa.Function
+		for fn := range a.Funcs[root.Name] {
+			fns = append(fns, fn)
+		}
+		sort.Slice(fns, func(i, j int) bool { return fns[i].String() < fns[j].String() })
+		for _, fn := range fns {
+			nReqFns++
+			for _, b := range fn.Blocks {
+				for _, in := range b.Instrs {
+					what := ""
+					switch x := in.(type) {
+					case *ssa.Send:
+						what = "channel send"
+					case *ssa.UnOp:
+						if x.Op == token.ARROW {
+							what = "channel receive"
+						}
+					case *ssa.Select:
+						if x.Blocking {
+							what = "blocking select"
+						}
+					case *ssa.Call:
+						if c := x.Call.StaticCallee(); c != nil {
+							switch c.String() {
+							case "time.Sleep", "(*sync.WaitGroup).Wait", "(*sync.Cond).Wait":
+								what = "call of " + c.String()
+							}
+						}
+					}
+					if what != "" {
+						r.Fail("R4", fmt.Sprintf("request path %s never waits: %s in %s", root.Name, what, fn.Name()), w.InstrPos(in), "a service request that blocks while the package mutex is held stalls the frame loop (which takes the mutex for every connection) and every other request", "")
+					}
+				}
+			}
+		}
+	}
+	r.Check(nReqFns >= 3, "R4", "functions on the request paths scanned for blocking operations", "-", fmt.Sprint(nReqFns))
 	// R2: CopyRecent (shared with C19.Q6)
 	if ri, err := resolveRing(w); err != nil {
 		r.Unknown("R2", "motion.FrameLoop", "-", err.Error())
@@ -207,7 +253,7 @@ func propC16(w *World, r *Report) {
 		}
 		r.Check(nCalls >= 1, "G4", "a processor method hands out the recent frame", "-", fmt.Sprint(nCalls))
 	}
-	n := 0
+	n, nParse := 0, 0
 	for fn := range w.AllFuncs {
 		if rv := fn.Signature.Recv(); rv == nil || !isPtrTo(rv.Type(), c.T) || len(fn.Blocks) == 0 {
 			continue
@@ -226,6 +272,7 @@ func propC16(w *World, r *Report) {
 					if u, ok := call.Call.Value.(*ssa.UnOp); ok {
 						if fa, ok := u.X.(*ssa.FieldAddr); ok && fa.Field == runs.model.parseFld && len(call.Call.Args) >= 2 {
 							dst, what = call.Call.Args[1], "parser destination"
+							nParse++
 						}
 					}
 				}
@@ -247,5 +294,5 @@ func propC16(w *World, r *Report) {
 			}
 		}
 	}
-	r.Check(n >= 2, "G4", "frame write sites in MotionProcessor", "-", fmt.Sprint(n))
+	r.Check(n >= 1 && nParse >= 1, "G4", "frame write sites in MotionProcessor (the live path's parser call among them)", "-", fmt.Sprintf("%d sites, %d parser", n, nParse))
 }
